@@ -37,6 +37,7 @@ enum EvKind : uint8_t
     EV_BLOCKED,
     EV_EPOCH_DONE,
     EV_EPOCH_START,
+    EV_FINE, // preemption at a basic-block boundary of instrumented code that holds no lock
 };
 
 struct Event
@@ -67,6 +68,10 @@ struct Spec
     int            prio[kMaxClients]{};
     const uint32_t* change_points{nullptr};
     size_t          nchange{0};
+    const uint32_t* fine{nullptr}; // ascending counts: yield at the n-th basic block executed outside any lock
+    size_t          nfine{0};
+    const uint32_t* susp{nullptr}; // ascending ordinals: yield at the n-th execution, without the container's lock,
+    size_t          nsusp{0};      // of a basic block that calibration only ever saw executed under that lock
     uint32_t        step_budget{20000};
     const void*     obj_lo{nullptr}; // address range of the container under test:
     const void*     obj_hi{nullptr}; // mutexes inside it are schedule points
@@ -91,6 +96,15 @@ const int32_t* chosen(size_t* n); // the client chosen at every decision (for ex
 uint32_t       preemptions();     // decisions that switched away from a runnable current client
 uint32_t       stalls_fired();    // decisions where the stall window excluded a runnable victim
 uint32_t       blocked_fired();   // lock requests that found the mutex held
+// Calibration: a fixed single-threaded workload run once per process marks the basic blocks of
+// the container code that execute while the container's own mutex is held.
+void           calib_begin(const void* obj_lo, const void* obj_hi);
+void           calib_end();
+uint32_t       calib_locked_blocks();
+uint32_t       susp_seen();       // executions of such blocks by a client that did not hold the container's lock
+uint32_t       susp_fired();      // preemptions taken there
+uint32_t       fine_fired();      // basic-block preemptions taken
+uint32_t       fine_seen();       // basic blocks executed by clients inside calls while holding no lock
 uint64_t       trace_hash();
 int            client_of_os_tid(long os_tid); // -1 if the thread is not a client of the last run      // hash of (client, kind) sequence: one value per distinct interleaving
 } // namespace sched
